@@ -54,6 +54,7 @@ def check(ctx):
     c03.r03_7(ctx)  # the segment tables the search runs on are SO-sorted
     c03.r03_4(ctx, None)
     r01_8(ctx)
+    r01_9(ctx, m)
     ctx.not_decided += [
         "utils.reverse_cigar's index arithmetic (that the reversed CIGAR is the op-wise reverse)",
         "view.run's construction of the node->interval map and contig lengths from the rGFA tags (checked only for call-site agreement in C03/C04)",
@@ -922,3 +923,53 @@ def r01_8(ctx):
                     oks = True
                     src = "accumulator loop: " + t
     ctx.check(okl and oks, "R01.8", run.where(), "the length of a reference contig (path length of a collapsed record) is the sum of the LN tags of all its segments", key_of(run, f"contig-len:{okl}:{src[:80]}"), expr=src)
+
+
+def r01_9(ctx, m):
+    """Converting one record does not write into the tables shared by all records of a run (the node -> interval map,
+    the per-contig segment lists, the contig lengths): in gaftools.conversion the only objects written through a parameter
+    are the record being converted (strand flip, cg tag)."""
+    from ..core import _MUTATORS
+    from .common import record_params
+
+    repo = ctx.repo
+    conv = repo.module("gaftools.conversion", "R01.9")
+    n = 0
+    for f in conv.funcs.values():
+        if f.cls is not None and f.name == "__init__":
+            continue
+        recs = record_params(f, m.schema) | {"self"}
+        rec_attrs = set(m.schema) | {m.extras["tags_attr"], m.extras["cigar_attr"]}
+        # a helper that is handed the record (it reads the record's tags / cigar / columns) writes the record, not a table
+        recs |= {p_ for p_ in f.params if any(isinstance(x, ast.Attribute) and isinstance(x.value, ast.Name) and x.value.id == p_ and x.attr in rec_attrs for x in walk_own(f.node))}
+        params = set(f.params)
+        # names bound to elements of a parameter (n1 = out_node[-1][0] ... are locals built in this call; `x = nodes[k]` is shared)
+        shared = set(params) - recs
+        ld = {}
+        for st in walk_own(f.node):
+            if isinstance(st, ast.Assign) and len(st.targets) == 1 and isinstance(st.targets[0], ast.Name) and isinstance(st.value, ast.Subscript):
+                root = st.value
+                while isinstance(root, (ast.Subscript, ast.Attribute)):
+                    root = root.value
+                if isinstance(root, ast.Name) and root.id in shared:
+                    ld[st.targets[0].id] = root.id
+        for x in walk_own(f.node):
+            base = None
+            what = None
+            if isinstance(x, (ast.Attribute, ast.Subscript)) and isinstance(x.ctx, (ast.Store, ast.Del)):
+                base, what = x.value, norm(x)
+            elif isinstance(x, ast.Call) and isinstance(x.func, ast.Attribute) and x.func.attr in _MUTATORS:
+                base, what = x.func.value, norm(x)[:60]
+            if base is None:
+                continue
+            while isinstance(base, (ast.Subscript, ast.Attribute)):
+                base = base.value
+            if not isinstance(base, ast.Name):
+                continue
+            n += 1
+            root = base.id if base.id in shared else ld.get(base.id)
+            if root is not None and base.id not in recs:
+                ctx.violated("R01.9", f.where(x), f"`{what}` writes into an object reached through the parameter `{root}`: the graph tables are shared by every record of the run, so a later record sees the change", key_of(f, f"shared-write:{what}"))
+    ctx.require_count("R01.9", n, 3, conv.relpath, "writes through names in gaftools.conversion")
+    if not any(i.rule == "R01.9" and i.verdict == "violated" for i in ctx.instances):
+        ctx.holds("R01.9", conv.relpath, f"none of the {n} writes in gaftools.conversion goes through a shared table parameter (only the record being converted and locals of the call are written)")
